@@ -24,7 +24,7 @@ pub const RULE: &str = "A worker generates a corpus from its seed: ~100 programs
 pub const ASSUMPTIONS: &[&str] = &[
     "the reference is the same tree's library run alone in a fresh process (the property is relational: same source, same result)",
     "caller threads are real OS threads, so thread_local!, LazyLock and std locks behave as in a user's program; only the choice of who runs is simulated",
-    "yield points: every intercepted libc call (getcwd, statx, open, read, close, ...) and the 24 cfg-guarded hook sites in /repo (build entry, between passes, every parsed line, every pass-1/pass-2 item, macro expansion, .device, every symbol-table accessor - i.e. inside expression evaluation)",
+    "yield points: every intercepted libc call (getcwd, statx, open, read, close, ...) and the 24 cfg-guarded hook sites in /repo (build entry, between passes, every parsed line, every pass-1/pass-2 item, macro expansion, .device, every symbol-table accessor - i.e. inside expression evaluation); in the function-entry build of the harness (nightly, -Zinstrument-mcount on the code under test only) additionally about every k-th function entry of avra_lib and its helper crates, k seeded per thread",
     "a token holder that blocks on a foreign lock for 2 s of wall time loses the token to the lowest-numbered parked thread; wall time decides when this is noticed, never who runs",
     "the build hit by an injected fault is exempt (engine inctree judges it); every other build of the episode is judged",
     "corpus entries that panic or crash in isolation are excluded and counted (a C16 matter)",
@@ -88,6 +88,10 @@ pub struct Scenario {
     pub hash_seed: u64,
     pub clock: u64,
     pub mode: String,
+    /// > 0: the episode runs in the function-entry build of the harness and about every
+    /// `fn_mean`-th function entry of the code under test is a yield point
+    #[serde(default)]
+    pub fn_mean: u32,
 }
 
 #[derive(Serialize, Deserialize, Clone, Debug)]
@@ -183,7 +187,7 @@ fn strategy_of(sc: &Scenario, total_ops: usize) -> Strategy {
     match sc.strategy.kind.as_str() {
         "sequential" => Strategy::Sequential,
         "sticky" => Strategy::Sticky(sc.strategy.p.max(1)),
-        "pct" => Strategy::Pct { d: sc.strategy.d.max(1), horizon: (total_ops as u32) * 60 + 20 },
+        "pct" => Strategy::Pct { d: sc.strategy.d.max(1), horizon: (total_ops as u32) * if sc.fn_mean > 0 { 400 } else { 60 } + 20 },
         _ => Strategy::Uniform,
     }
 }
@@ -210,6 +214,21 @@ pub fn mb_run(input: &str) -> i32 {
     let cwd_abs = std::env::current_dir().unwrap_or(cwd_abs);
     let n = sc.threads.len();
     let total_ops: usize = sc.threads.iter().map(|t| t.len()).sum();
+    if sc.fn_mean > 0 && !sched::fn_build() {
+        eprintln!("mb-run: this episode needs the function-entry build of the harness");
+        return 4;
+    }
+    if sc.fn_mean > 0 {
+        // A yield point inside the initialiser of a lazily initialised static parks the thread
+        // while it holds the `Once`; whoever touches the static next blocks for real, with the
+        // token. The device table is therefore initialised before the episode starts (by a
+        // build on this unscheduled thread); other such statics of a changed tree are handled
+        // by the foreign-lock detector, at its price.
+        let _ = std::panic::catch_unwind(|| avra_lib::builder::build_str(".device ATmega48\n    nop\n").is_ok());
+    }
+    sched::FN_MEAN.store(sc.fn_mean as usize, std::sync::atomic::Ordering::Relaxed);
+    let fn_mean = sc.fn_mean;
+    let sched_seed = sc.sched_seed;
     let sched = Sched::new(n, strategy_of(&sc, total_ops), sc.sched_seed);
     let mut st = SimState::new(&root);
     st.hash_seed = sc.hash_seed;
@@ -232,6 +251,9 @@ pub fn mb_run(input: &str) -> i32 {
             .spawn(move || {
                 simlibc::set_active(Some(tid as u32));
                 simlibc::bypass(|| sched.enter(tid));
+                if fn_mean > 0 {
+                    sched::fn_yield_arm(sched_seed, tid, fn_mean);
+                }
                 for (index, op) in script.iter().enumerate() {
                     let e = match entries.get(&op.entry) {
                         Some(e) => e.clone(),
@@ -269,6 +291,7 @@ pub fn mb_run(input: &str) -> i32 {
                     results.lock().unwrap_or_else(|e| e.into_inner()).push(OpResult { thread: tid, index, entry: op.entry.clone(), invoke, ret, outcome, faulted, cwd_ok });
                     simlibc::bypass(|| sched.yield_point(tid, sched::SITE_OP_BOUNDARY));
                 }
+                sched::fn_yield_disarm();
                 simlibc::bypass(|| sched.finish(tid));
                 simlibc::set_active(None);
             })
@@ -321,6 +344,10 @@ pub fn mb_run(input: &str) -> i32 {
 
 fn child_json(sub: &str, input: &Value, timeout: f64) -> Result<Value, String> {
     let exe = std::env::current_exe().map_err(|e| e.to_string())?;
+    child_json_with(&exe, sub, input, timeout)
+}
+
+fn child_json_with(exe: &std::path::Path, sub: &str, input: &Value, timeout: f64) -> Result<Value, String> {
     let mut child = Command::new(exe).arg(sub).stdin(Stdio::piped()).stdout(Stdio::piped()).stderr(Stdio::null()).spawn().map_err(|e| e.to_string())?;
     {
         let mut si = child.stdin.take().unwrap();
@@ -552,11 +579,12 @@ fn single_entry_scenario(c: &Corpus, id: &str) -> Scenario {
         hash_seed: 1,
         clock: 1_700_000_000,
         mode: "alone".into(),
+        fn_mean: 0,
     }
 }
 
 /// Draw an episode over the corpus.
-pub fn gen_episode(c: &Corpus, seed: u64) -> Scenario {
+pub fn gen_episode(c: &Corpus, seed: u64, fn_available: bool) -> Scenario {
     let mut r = Rng::new(seed);
     let all: Vec<&String> = c.entries.keys().filter(|k| !k.starts_with('v')).collect();
     let fams: Vec<&String> = c.families.keys().collect();
@@ -693,7 +721,19 @@ pub fn gen_episode(c: &Corpus, seed: u64) -> Scenario {
             }
         }
     }
-    Scenario { engine: "multibuild".into(), entries, files, cwd: CWD.into(), threads, strategy, schedule: None, sched_seed: r.next_u64(), hash_seed: r.next_u64(), clock: 1_500_000_000 + r.below(500_000_000), mode: mode.into() }
+    // a share of the overlapping episodes runs in the function-entry build (if there is one)
+    let fn_mean = if fn_available && threads.len() >= 2 && matches!(mode, "concurrent" | "mirror") && r.chance(1, 3) { [2u32, 6, 20, 60][r.usize(4)] } else { 0 };
+    let strategy = if fn_mean > 0 {
+        // few, well-placed switches: a hand-over costs far more than a function entry
+        match r.below(3) {
+            0 => StrategySpec { kind: "sticky".into(), p: 20, d: 0 },
+            1 => StrategySpec { kind: "sticky".into(), p: 50, d: 0 },
+            _ => StrategySpec { kind: "pct".into(), p: 0, d: 3 },
+        }
+    } else {
+        strategy
+    };
+    Scenario { engine: "multibuild".into(), entries, files, cwd: CWD.into(), threads, strategy, schedule: None, sched_seed: r.next_u64(), hash_seed: r.next_u64(), clock: 1_500_000_000 + r.below(500_000_000), mode: mode.into(), fn_mean }
 }
 
 fn judge_episode(sc: &Scenario, out: &EpisodeOut, refs: &BTreeMap<String, RefOut>, seed: u64) -> Option<Violation> {
@@ -706,7 +746,7 @@ fn judge_episode(sc: &Scenario, out: &EpisodeOut, refs: &BTreeMap<String, RefOut
             property: "C17".into(),
             engine: "multibuild".into(),
             class: class.into(),
-            signature: format!("class={} mode={} threads={}", class, sc.mode, sc.threads.len()),
+            signature: format!("class={} mode={}{} threads={}", class, sc.mode, if sc.fn_mean > 0 { "+fn" } else { "" }, sc.threads.len()),
             seed,
             expected: expected.into(),
             observed,
@@ -745,7 +785,22 @@ fn judge_episode(sc: &Scenario, out: &EpisodeOut, refs: &BTreeMap<String, RefOut
     None
 }
 
+/// The function-entry build of the harness, if the check script could build it.
+pub fn fn_bin() -> Option<PathBuf> {
+    let p = PathBuf::from(std::env::var("VERIF_MC_BIN").ok()?);
+    if p.exists() {
+        Some(p)
+    } else {
+        None
+    }
+}
+
 fn run_episode(sc: &Scenario, root: &str) -> Result<EpisodeOut, String> {
+    if sc.fn_mean > 0 {
+        let bin = fn_bin().ok_or_else(|| "the scenario needs the function-entry build of the harness (VERIF_MC_BIN), which is not available".to_string())?;
+        let v = child_json_with(&bin, "mb-run", &json!({"scenario": sc, "root": root}), 2700.0)?;
+        return serde_json::from_value(v).map_err(|e| e.to_string());
+    }
     let v = child_json("mb-run", &json!({"scenario": sc, "root": root}), 2700.0)?;
     serde_json::from_value(v).map_err(|e| e.to_string())
 }
@@ -804,7 +859,7 @@ pub fn worker(cfg: &WorkerCfg, emit: &mut dyn FnMut(Violation)) -> Stats {
         let seed = mix(cfg.base_seed, &[0xC17, g]);
         stats.first_seed.get_or_insert(seed);
         stats.last_seed = Some(seed);
-        let sc = gen_episode(c, seed);
+        let sc = gen_episode(c, seed, fn_bin().is_some());
         // private files back to version 0
         for ids in &c.private {
             if let Some(id0) = ids.first() {
@@ -854,7 +909,13 @@ pub fn worker(cfg: &WorkerCfg, emit: &mut dyn FnMut(Violation)) -> Stats {
         stats.probe("context_switch_inside_pass_1_or_2", sw(8, 9));
         stats.probe("context_switch_inside_macro_expansion", sw(12, 12));
         stats.probe("context_switch_inside_expression_evaluation_or_symbol_access", sw(20, 31));
-        stats.probe("context_switch_at_a_libc_call", sw(100, 200));
+        stats.probe("context_switch_at_a_libc_call", sw(100, 199));
+        if fn_bin().is_some() {
+            stats.probe("context_switch_at_a_function_entry_of_the_code_under_test", sw(200, 200));
+        }
+        if sc.fn_mean > 0 {
+            stats.count("episodes_in_the_function_entry_build", 1);
+        }
         let overlap = out.results.iter().any(|a| out.results.iter().any(|b| a.thread != b.thread && a.invoke < b.ret && b.invoke < a.ret && sc.entries.get(&a.entry).map(|e| &e.family) == sc.entries.get(&b.entry).map(|e| &e.family)));
         stats.probe("two_builds_of_one_family_overlapping_in_time", overlap);
         let after_fail = out.results.iter().any(|a| a.index > 0 && out.results.iter().any(|b| b.thread == a.thread && b.index + 1 == a.index && b.outcome.fails()));
@@ -998,6 +1059,12 @@ pub fn shrink(scv: &Value) -> Vec<Value> {
         s.schedule = None;
         s.strategy = StrategySpec { kind: "sequential".into(), p: 0, d: 0 };
         s.sched_seed = 0;
+        push(s);
+    }
+    if sc.fn_mean > 0 {
+        let mut s = sc.clone();
+        s.fn_mean = 0;
+        s.schedule = None;
         push(s);
     }
     // drop fault rules
